@@ -10,6 +10,8 @@ ENGINES = [
      "kind_free_text": "program index, call binding, guards, def-use, freshness, effects"},
     {"name": "E", "path": "wrapsa/emit.py", "serves_properties": ["C03", "C04", "C09"],
      "kind_free_text": "constant folding of str.format / f-string / concatenation / textwrap templates into literal parts and slots with bound expressions"},
+    {"name": "I", "path": "wrapsa/rules_ids.py", "serves_properties": ["C05"],
+     "kind_free_text": "id-allocation site inventory (affine offsets, slot positions) + bounded abstract execution of the replay loops"},
     {"name": "X", "path": "wrapsa/clangx.py", "serves_properties": ["C18", "C11"],
      "kind_free_text": "clang -fsyntax-only JSON AST of matlab.h against stub headers"},
 ]
@@ -44,6 +46,14 @@ CHECKS = {
                     "receiver and self parameter agree per member kind; return iff non-void; readonly iff const; "
                     "same-entity slots; operator shapes). Behaviour of the compiled binding is not decided.",
             "note": TB + "; pybind11 trusted"},
+    "C05": {"engine": "I", "design_ref": "DESIGN.md section 3 C05",
+            "technique": "static analysis: inventory of id-allocation sites with affine offsets and template slot positions, single-writer/allocator shape, bounded abstract execution of the two replay loops over symbolic map entries",
+            "text": "Decides the whole numbering protocol by an inductive argument whose premises are checked: single "
+                    "writer, allocator shape, every allocated id embedded once as first gateway argument, affine "
+                    "offsets (incl. the virtual pair), the two replay loops produce one case per id routed to the "
+                    "routine of the same map entry and define each called routine once, roles not confusable with "
+                    "user names. Correctness of the routine bodies is C06/C11.",
+            "note": TB + "; abstract execution models only the statement forms the loops use (else ANALYSIS-ERROR)"},
     "C07": {"engine": "G+F", "design_ref": "DESIGN.md section 3 C07",
             "technique": "static analysis: end-anchor and capture-completeness of the grammar, call-graph effect analysis (may-reject before first write on all paths), handler audit",
             "text": "Decides: the parse root is end-anchored and is the only parse entry; every accepted token "
@@ -109,5 +119,5 @@ CHECKS = {
 }
 PENDING = "checker not implemented yet in this revision (see DESIGN.md section 3 for the planned static rules)"
 NOT_APPLICABLE = {p: PENDING for p in
-                  ["C05", "C06", "C10", "C11",
+                  ["C06", "C10", "C11",
                    "C15", "C16", "C17"]}
